@@ -4,17 +4,74 @@
  * Protocol: see lean/Percival/Driver/Ds.lean.  Every line is `L1 | L2`:
  *   L1 = status, observable sizes, refused-request count, data handed to the caller
  *   L2 = internal fields, live library blocks, request sizes of the op
+ *
+ * -DHC_BLACKBOX (used when the white-box build no longer compiles, e.g. after a private member was renamed):
+ * the three .c files are compiled separately and only what the headers declare is used.  The same L1 part is
+ * printed and no L2 part (the `| n=` of `end` is the harness's own request counter and stays).  size comes from
+ * elasticarray_getsize, alloc is the size of the block that holds the data as seen by the allocation wrappers
+ * (hw_size of the data pointer).  The pool is driven through mpool_t_malloc/mpool_t_free and the exit handler it
+ * registers with atexit(); it cannot be re-created after `mp_exit`/`end`, so pool cases need one process each
+ * (bb_fresh) and further pool ops after the exit handler ran answer `skip`.
+ *
+ * Pools: MPOOL is instantiated with the cache sizes 1, 2, 3 and 4 (CTASSERT(size > 0) allows 1); `mp_init <size>`
+ * ends the pool in use (as `mp_exit` does) and takes the one of that size; a case starts with size 4.
  */
 #include "hcommon.h"
 #include "hwrap.h"
 
+#ifdef HC_BLACKBOX
+#include "elasticarray.h"
+#include "elasticqueue.h"
+#include "seqptrmap.h"
+#else
 #include "elasticarray.c"
 #include "elasticqueue.c"
 #include "seqptrmap.c"
+#endif
 #include "mpool.h"
 
 struct pobj { char x[40]; };
 MPOOL(t, struct pobj, 4);
+MPOOL(t1, struct pobj, 1);
+MPOOL(t2, struct pobj, 2);
+MPOOL(t3, struct pobj, 3);
+static size_t mp_size = 4;		/* cache size of the pool in use */
+
+static struct pobj *
+pool_malloc(void)
+{
+
+	switch (mp_size) {
+	case 1:
+		return (mpool_t1_malloc());
+	case 2:
+		return (mpool_t2_malloc());
+	case 3:
+		return (mpool_t3_malloc());
+	default:
+		return (mpool_t_malloc());
+	}
+}
+
+static void
+pool_free(struct pobj * p)
+{
+
+	switch (mp_size) {
+	case 1:
+		mpool_t1_free(p);
+		break;
+	case 2:
+		mpool_t2_free(p);
+		break;
+	case 3:
+		mpool_t3_free(p);
+		break;
+	default:
+		mpool_t_free(p);
+		break;
+	}
+}
 
 static struct elasticarray * EA = NULL;
 static struct elasticqueue * EQ = NULL;
@@ -42,19 +99,38 @@ num(int i)
 	return (strtoull(hc_tok[i], NULL, 10));
 }
 
+#ifdef HC_BLACKBOX
+/* what the public interface and the allocation wrappers show */
+#define EA_SIZE()	elasticarray_getsize(EA, 1)
+#define EA_ALLOC()	hw_size(elasticarray_get(EA, 0, 1))
+#define L2C()		((void)0)
+#define eq_l2()		((void)0)
+#define sm_l2()		((void)0)
+#define mp_l2()		((void)0)
+
+/* the exit handlers the pools registered (atexit() from library code goes to the wrapper) */
+static void (* bb_exitfn[8])(void);
+static int bb_nexitfn = 0;
+static int bb_pool_dead = 0;
+
+static void
+bb_atexit_hook(void (* fn)(void))
+{
+
+	if (bb_nexitfn < 8)
+		bb_exitfn[bb_nexitfn++] = fn;
+}
+#else
+#define EA_SIZE()	(EA->size)
+#define EA_ALLOC()	(EA->alloc)
+#define L2C()		do { printf(" | "); l2_common(); } while (0)
+
 static void
 l2_common(void)
 {
 
 	printf("live=%ld ", hw_live);
 	hw_print_req();
-}
-
-static void
-ea_l1(const char * st)
-{
-
-	printf("%s sz=%zu al=%zu rf=%u", st, EA->size, EA->alloc, hw_rf());
 }
 
 static void
@@ -74,10 +150,46 @@ sm_l2(void)
 	l2_common();
 }
 
+/* record and static stack of the pool in use */
+static struct mpool *
+pool_rec(void)
+{
+
+	return (mp_size == 1 ? &mpool_t1_rec : mp_size == 2 ? &mpool_t2_rec : mp_size == 3 ? &mpool_t3_rec : &mpool_t_rec);
+}
+
+static void **
+pool_static(void)
+{
+
+	return (mp_size == 1 ? mpool_t1_static : mp_size == 2 ? mpool_t2_static : mp_size == 3 ? mpool_t3_static :
+	    mpool_t_static);
+}
+
+static void
+pool_atexit(void)
+{
+
+	switch (mp_size) {
+	case 1:
+		mpool_t1_atexit();
+		break;
+	case 2:
+		mpool_t2_atexit();
+		break;
+	case 3:
+		mpool_t3_atexit();
+		break;
+	default:
+		mpool_t_atexit();
+		break;
+	}
+}
+
 static void
 mp_l2(void)
 {
-	struct mpool * M = &mpool_t_rec;
+	struct mpool * M = pool_rec();
 	size_t i;
 
 	printf(" | stack=");
@@ -89,6 +201,14 @@ mp_l2(void)
 	    (unsigned long long)M->nempties, M->state, M->allocs != M->allocs_static);
 	l2_common();
 }
+#endif
+
+static void
+ea_l1(const char * st)
+{
+
+	printf("%s sz=%zu al=%zu rf=%u", st, EA_SIZE(), EA_ALLOC(), hw_rf());
+}
 
 /* Run the pool's exit handler, release the objects still in use, re-create the initial pool. */
 static size_t
@@ -96,7 +216,16 @@ pool_exit(void)
 {
 	size_t i, leaked = 0;
 
-	LIB(mpool_t_atexit());
+#ifdef HC_BLACKBOX
+	/* the handlers run once (as at process exit); afterwards the pools are gone for good */
+	if (bb_nexitfn > 0 && !bb_pool_dead) {
+		while (bb_nexitfn > 0)
+			LIB((bb_exitfn[--bb_nexitfn])());
+		bb_pool_dead = 1;
+	}
+#else
+	LIB(pool_atexit());
+#endif
 	/* every object that is not in use must be gone now */
 	for (i = 0; i < npobjs; i++)
 		if (!pobjs[i].inuse && hw_id(pobjs[i].p) == (long long)pobjs[i].id)
@@ -105,11 +234,13 @@ pool_exit(void)
 		if (pobjs[i].inuse)
 			free(pobjs[i].p);
 	npobjs = 0;
-	mpool_t_rec.stacklen = 0;
-	mpool_t_rec.allocsize = 4;
-	mpool_t_rec.allocs = mpool_t_static;
-	mpool_t_rec.nallocs = mpool_t_rec.nempties = 0;
-	mpool_t_rec.state = 0;
+#ifndef HC_BLACKBOX
+	pool_rec()->stacklen = 0;
+	pool_rec()->allocsize = mp_size;
+	pool_rec()->allocs = pool_static();
+	pool_rec()->nallocs = pool_rec()->nempties = 0;
+	pool_rec()->state = 0;
+#endif
 	return (leaked);
 }
 
@@ -134,11 +265,15 @@ main(void)
 	size_t i, n;
 
 	setvbuf(stdout, NULL, _IOFBF, 1 << 16);
+#ifdef HC_BLACKBOX
+	hw_atexit_hook = bb_atexit_hook;
+#endif
 	while (hc_next()) {
 		hw_begin();
 		if (hc_is("case", 1)) {
 			free_all();
 			(void)pool_exit();
+			mp_size = 4;
 			hw_reset();
 			printf("case %s", hc_tok[1]);
 		} else if (hw_schedule_op(hc_tok, hc_ntok)) {
@@ -162,28 +297,27 @@ main(void)
 			else {
 				uint8_t * p = elasticarray_get(EA, 0, 1);
 
-				for (i = 0; i < EA->size; i++)
+				n = EA_SIZE();
+				for (i = 0; i < n; i++)
 					p[i] = pat(num(3), i);
 				ea_l1("ok");
 			}
-			printf(" | ");
-			l2_common();
+			L2C();
 		} else if (strncmp(hc_tok[0], "ea_", 3) == 0 && EA == NULL) {
 			printf("skip");
 		} else if (hc_is("ea_resize", 3)) {
-			size_t old = EA->size;
+			size_t old = EA_SIZE();
 			int rc;
 
 			LIB(rc = elasticarray_resize(EA, num(1), num(2)));
-			if (rc == 0 && EA->size > old) {
+			if (rc == 0 && (n = EA_SIZE()) > old) {
 				uint8_t * p = elasticarray_get(EA, 0, 1);
 
-				for (i = old; i < EA->size; i++)
+				for (i = old; i < n; i++)
 					p[i] = pat(num(3), i - old);
 			}
 			ea_l1(rc ? "fail" : "ok");
-			printf(" | ");
-			l2_common();
+			L2C();
 		} else if (hc_is("ea_append", 3)) {
 			size_t nrec = num(1), reclen = num(2);
 			int rc;
@@ -206,20 +340,17 @@ main(void)
 				free(src);
 			}
 			ea_l1(rc ? "fail" : "ok");
-			printf(" | ");
-			l2_common();
+			L2C();
 		} else if (hc_is("ea_shrink", 2)) {
 			LIB(elasticarray_shrink(EA, num(1), num(2)));
 			ea_l1("ok");
-			printf(" | ");
-			l2_common();
+			L2C();
 		} else if (hc_is("ea_trunc", 0)) {
 			int rc;
 
 			LIB(rc = elasticarray_truncate(EA));
 			ea_l1(rc ? "fail" : "ok");
-			printf(" | ");
-			l2_common();
+			L2C();
 		} else if (hc_is("ea_get", 2) || hc_is("ea_set", 3)) {
 			size_t pos = num(1), reclen = num(2);
 			size_t have;
@@ -240,21 +371,19 @@ main(void)
 					printf(" n=1 out=");
 					hc_puthex(p, reclen);
 				}
-				printf(" | ");
-				l2_common();
+				L2C();
 			}
 		} else if (hc_is("ea_getsize", 1)) {
 			LIB(n = elasticarray_getsize(EA, num(1)));
 			ea_l1("ok");
-			printf(" n=%zu out=- | ", n);
-			l2_common();
+			printf(" n=%zu out=-", n);
+			L2C();
 		} else if (hc_is("ea_dump", 0)) {
 			LIB(n = elasticarray_getsize(EA, 1));
 			ea_l1("ok");
 			printf(" n=%zu out=", n);
 			hc_puthex(n ? elasticarray_get(EA, 0, 1) : NULL, n);
-			printf(" | ");
-			l2_common();
+			L2C();
 		} else if (hc_is("ea_dup", 1)) {
 			void * buf = NULL;
 			size_t nrec = 0;
@@ -264,14 +393,13 @@ main(void)
 			ea_l1(rc ? "fail" : "ok");
 			if (rc == 0) {
 				printf(" n=%zu out=", nrec);
-				hc_puthex(buf, EA->size);
+				hc_puthex(buf, EA_SIZE());
 				free(buf);
 			}
-			printf(" | ");
-			l2_common();
+			L2C();
 		} else if (hc_is("ea_export", 1)) {
 			void * buf = NULL;
-			size_t nrec = 0, size = EA->size;
+			size_t nrec = 0, size = EA_SIZE();
 			int rc;
 
 			LIB(rc = elasticarray_export(EA, &buf, &nrec, num(1)));
@@ -283,13 +411,12 @@ main(void)
 				hc_puthex(buf, size);
 				free(buf);
 			}
-			printf(" | ");
-			l2_common();
+			L2C();
 		} else if (hc_is("ea_free", 0)) {
 			LIB(elasticarray_free(EA));
 			EA = NULL;
-			printf("ok | ");
-			l2_common();
+			printf("ok");
+			L2C();
 		}
 		/* ------------------------------------------------ elastic queue */
 		else if (hc_is("eq_init", 1)) {
@@ -299,8 +426,8 @@ main(void)
 			eq_reclen = num(1);
 			LIB(EQ = elasticqueue_init(eq_reclen));
 			if (EQ == NULL) {
-				printf("fail rf=%u | ", hw_rf());
-				l2_common();
+				printf("fail rf=%u", hw_rf());
+				L2C();
 			} else {
 				printf("ok len=%zu rf=%u", elasticqueue_getlen(EQ), hw_rf());
 				eq_l2();
@@ -363,8 +490,8 @@ main(void)
 		} else if (hc_is("eq_free", 0)) {
 			LIB(elasticqueue_free(EQ));
 			EQ = NULL;
-			printf("ok | ");
-			l2_common();
+			printf("ok");
+			L2C();
 		}
 		/* ------------------------------------------------ sequential pointer map */
 		else if (hc_is("sm_init", 0)) {
@@ -373,8 +500,8 @@ main(void)
 			hw_begin();
 			LIB(SM = seqptrmap_init());
 			if (SM == NULL) {
-				printf("fail rf=%u | ", hw_rf());
-				l2_common();
+				printf("fail rf=%u", hw_rf());
+				L2C();
 			} else {
 				printf("ok rf=%u", hw_rf());
 				sm_l2();
@@ -406,14 +533,34 @@ main(void)
 		} else if (hc_is("sm_free", 0)) {
 			LIB(seqptrmap_free(SM));
 			SM = NULL;
-			printf("ok | ");
-			l2_common();
+			printf("ok");
+			L2C();
 		}
 		/* ------------------------------------------------ object pool */
-		else if (hc_is("mp_malloc", 0)) {
+#ifdef HC_BLACKBOX
+		else if (strncmp(hc_tok[0], "mp_", 3) == 0 && bb_pool_dead) {
+			printf("skip");
+		}
+#endif
+		else if (hc_is("mp_init", 1)) {
+			unsigned long long k = num(1);
+
+			if (k < 1 || k > 4)
+				printf("bad-op");
+			else {
+				(void)pool_exit();
+				mp_size = (size_t)k;
+#ifndef HC_BLACKBOX
+				/* (the pool taken is in its load-time state: every pool is put back when it is left) */
+				assert(pool_rec()->stacklen == 0 && pool_rec()->allocsize == mp_size && pool_rec()->state == 0);
+#endif
+				printf("ok");
+				L2C();
+			}
+		} else if (hc_is("mp_malloc", 0)) {
 			struct pobj * p;
 
-			LIB(p = mpool_t_malloc());
+			LIB(p = pool_malloc());
 			if (p == NULL)
 				printf("ok rf=%u null", hw_rf());
 			else {
@@ -460,7 +607,7 @@ main(void)
 					lastid = bid;
 				}
 				pobjs[best].inuse = 0;
-				LIB(mpool_t_free(pobjs[best].p));
+				LIB(pool_free(pobjs[best].p));
 				printf("ok rf=%u obj=%llu", hw_rf(), (unsigned long long)pobjs[best].id);
 				mp_l2();
 			}
@@ -474,15 +621,15 @@ main(void)
 				printf("skip");
 			else {
 				pobjs[i].inuse = 0;
-				LIB(mpool_t_free(pobjs[i].p));
+				LIB(pool_free(pobjs[i].p));
 				printf("ok rf=%u", hw_rf());
 				mp_l2();
 			}
 		} else if (hc_is("mp_exit", 0)) {
 			size_t leaked = pool_exit();
 
-			printf("ok leaked=%zu | ", leaked);
-			l2_common();
+			printf("ok leaked=%zu", leaked);
+			L2C();
 		} else {
 			printf("bad-op");
 		}
